@@ -104,7 +104,7 @@ func (sr *SR) parseWKTDatum(secName []string, secData string) error {
 }
 
 func (sr *SR) datumRename() {
-	if sr.DatumCode[0:2] == "d_" {
+	if strings.HasPrefix(sr.DatumCode, "d_") {
 		sr.DatumCode = sr.DatumCode[2:len(sr.DatumCode)]
 	}
 	if sr.DatumCode == "new_zealand_geodetic_datum_1949" ||
